@@ -1,6 +1,7 @@
 """C09 — name binding: reaching definitions and (possibly) undefined names.
 
-Skeleton programs (one function body each) over the variables x, y:
+Skeleton programs (one function body each) over the variables x, y, each for a scope kind of the variables
+(local / parameter / `global` / `nonlocal` in a nested function):
   ('asg', v, d)  v = d            every assignment a distinct int literal d
   ('use', v, u)  reveal_type(v)   use number u
   ('call',)      boom()           a call that may raise
@@ -58,6 +59,10 @@ RULE = (
     "if/else, while (opaque condition or `while True`)/for with break/continue/else, try/except(0-2 handlers)/else/"
     "finally, with (exception-suppressing or not), return, raise. All skeletons with <= N statements over x "
     "(exhaustive, thinned by the seed when above the cap), then seeded random larger ones (two variables, depth <= 4). "
+    "Every skeleton is instantiated for a scope kind of its variables: plain local, parameter (x: Literal[0] = 0), "
+    "`global` (module binds x = 0; one module-level name per function), `nonlocal` in a nested function (the enclosing "
+    "function binds x = 0 and calls it): all four kinds for skeletons of <= 3 statements and for the corpus, a "
+    "seed-drawn kind (50/10/20/20 %) for the rest; same oracles, the entry state is the only thing that depends on the kind. "
     "Excluded on purpose (the property does not quantify over them): `del`, and dead statements: statements after "
     "return/raise/break/continue in the same block and, more generally, statements no path of the liberal CFG reaches "
     "(pyanalyze analyses dead code as if it were reachable). Precision (reported ⊆ liberal) is only demanded at uses some liberal path reaches. "
@@ -71,8 +76,17 @@ ASSUMPTIONS = [
     "liberal semantics: additionally an exception edge before and after every statement (observable only inside try/with "
     "bodies), exceptions may also pass a try's handlers uncaught, every loop may exit after any iteration bypassing "
     "`else`, `while True` may exit",
-    "nested function definitions and global/nonlocal declarations are NOT in the generated grammar and not modelled "
-    "(the property text names them; this check does not cover them)",
+    "scope kinds: the CFG semantics is the same for every kind, only the entry state differs -- local: unbound; "
+    "parameter: its literal; global / nonlocal: strict = the binding made outside (one call on a fresh module / "
+    "enclosing frame), liberal = that binding or any value the function itself assigns (it may have been called before). "
+    "A global that the module never binds is not generated (pyanalyze never reports it undefined, by design)",
+    "NOT covered: module-level and class-body code (the property says `inside a function`; there is no FunctionScope, names "
+    "resolve to the imported module's runtime value), comprehension-bound names, and reads from a nested scope "
+    "(lambda / comprehension / nested def): those take the enclosing function's dictionary as it is when the nested scope "
+    "is visited -- in the checking phase that is the state LEFT BY the collecting phase, e.g. `(lambda: use(x))(); x = 1` "
+    "reports Literal[1] and no undefined name (probe result, see the report)",
+    "Generated/ScopeSet.lean: statements of FunctionScope.set by the condition they run under, regenerated from the live "
+    "source; obligation scope_set_bookkeeping_registered",
     "each variable is analysed independently (the model tracks one variable; assignments to the other are no-ops for it); "
     "two-variable skeletons exercise this in the correspondence",
     "theorems: soundness (definitions and unbound marker) for all try/with-free skeletons outside loopElse / "
@@ -974,7 +988,7 @@ def gen_cases(ctx):
     maxn = ctx.n(4, 5)
     ex = exhaustive(maxn)
     ctx.extra["exhaustive_part"] = "all %d skeletons over x with <= %d statements and at least one use" % (len(ex), maxn)
-    cap = ctx.n(11000, 48000)
+    cap = ctx.n(11000, 36000)
     if len(ex) > cap:
         small = [b for b in ex if sum(1 for _ in walk(b)) <= maxn - 1]
         big = [b for b in ex if sum(1 for _ in walk(b)) == maxn]
@@ -989,7 +1003,7 @@ def gen_cases(ctx):
             cases += [with_kind(prog, k) for k in KINDS]
         else:
             cases.append(with_kind(prog, random_kind(ctx.rng)))
-    nrand = ctx.n(5000, 30000)
+    nrand = ctx.n(5000, 22000)
     for i in range(nrand):
         r = ctx.rng.random()
         if r < 0.5:
@@ -1064,7 +1078,7 @@ def evaluate(ctx, cases, with_model=True, prop=True, stream="impl"):
         case = {"src": src, "prog": list(prog), "kind": kind_of(prog)}
         strict = cfg_reaching(prog, False)
         liberal = cfg_reaching(prog, True)
-        observed = execute(prog, nbits)
+        observed = execute(prog, nbits if i % 3 == 0 else NBITS)
         rep = impl[i]
         m = model[i] if model is not None else None
         if i % 1499 == 0:
@@ -1127,7 +1141,7 @@ def evaluate(ctx, cases, with_model=True, prop=True, stream="impl"):
 def dead_cases(ctx):
     """Skeletons WITH dead code: outside the property, but the model must still agree with pyanalyze on them."""
     out = []
-    while len(out) < ctx.n(600, 6000):
+    while len(out) < ctx.n(600, 4000):
         p = random_prog(ctx.rng, budget=12, depth=3, allow_dead=True)
         if has_dead_code(p):
             out.append(with_kind(p, random_kind(ctx.rng)))
